@@ -41,6 +41,11 @@ type recDB struct {
 	failPutAt int // <0: never; otherwise number of batch.Put calls still allowed
 	faults    int // write faults injected since the counter was reset
 	mu        sync.RWMutex // readers may run while a commit writes (concurrency phase)
+	// backend: when set, every call also goes to the REAL store implementation
+	// (xdb.LDBDatabase / ldbBatch over LevelDB in the scratch directory): batch.ValueSize(),
+	// which decides the flush points of a commit, is then the real one, and what the
+	// real store returns is compared with the in-memory mirror after every commit
+	backend xdb.Database
 }
 
 func baseDB() xdb.Database {
@@ -72,6 +77,11 @@ func (d *recDB) allow() bool {
 func (d *recDB) Put(key []byte, value []byte) error {
 	if !d.allow() {
 		return errInjected
+	}
+	if d.backend != nil {
+		if err := d.backend.Put(key, value); err != nil {
+			return err
+		}
 	}
 	d.mu.Lock()
 	d.m[string(key)] = cp(value)
@@ -114,7 +124,51 @@ func (d *recDB) Delete(key []byte) error {
 
 func (d *recDB) Close() {}
 
-func (d *recDB) NewBatch() xdb.Batch { return &recBatch{db: d} }
+func (d *recDB) NewBatch() xdb.Batch {
+	b := &recBatch{db: d}
+	if d.backend != nil {
+		b.inner = d.backend.NewBatch()
+	}
+	return b
+}
+
+// mirrorDiff compares what the real store returns for the given keys with the mirror.
+func (d *recDB) mirrorDiff(keys []string) string {
+	if d.backend == nil {
+		return ""
+	}
+	for _, k := range keys {
+		want, inMirror := d.m[k]
+		got, err := d.backend.Get([]byte(k))
+		has, _ := d.backend.Has([]byte(k))
+		if !inMirror {
+			if err == nil || has {
+				return "the real store holds key " + hexs(k) + " that was never written"
+			}
+			continue
+		}
+		if err != nil || !has {
+			return "key " + hexs(k) + " written through a batch is missing from the real store"
+		}
+		if string(got) != string(want) {
+			return "key " + hexs(k) + " holds different bytes in the real store"
+		}
+	}
+	return ""
+}
+
+func hexs(k string) string {
+	const hexd = "0123456789abcdef"
+	n := len(k)
+	if n > 8 {
+		n = 8
+	}
+	out := make([]byte, 0, 2*n)
+	for i := 0; i < n; i++ {
+		out = append(out, hexd[k[i]>>4], hexd[k[i]&15])
+	}
+	return string(out)
+}
 
 // snapshot returns an independent copy of the current content.
 func (d *recDB) snapshot() map[string][]byte {
@@ -157,6 +211,7 @@ func sortedKeysOf(m map[string][]byte) []string {
 }
 
 type recBatch struct {
+	inner xdb.Batch // the real batch (ldbBatch) when a backend is attached
 	db    *recDB
 	items []kv
 	size  int
@@ -170,17 +225,32 @@ func (b *recBatch) Put(key, value []byte) error {
 	if b.db.failPutAt > 0 {
 		b.db.failPutAt--
 	}
+	if b.inner != nil {
+		if err := b.inner.Put(key, value); err != nil {
+			return err
+		}
+	}
 	b.items = append(b.items, kv{string(key), cp(value)})
 	b.size += len(value)
 	return nil
 }
 
-func (b *recBatch) ValueSize() int { return b.size }
+func (b *recBatch) ValueSize() int {
+	if b.inner != nil {
+		return b.inner.ValueSize() // the real ldbBatch decides when a commit flushes
+	}
+	return b.size
+}
 
 func (b *recBatch) Write() error {
 	if !b.db.allow() {
 		b.db.refused = append([]kv{}, b.items...)
 		return errInjected
+	}
+	if b.inner != nil {
+		if err := b.inner.Write(); err != nil {
+			return err
+		}
 	}
 	b.db.mu.Lock()
 	for _, it := range b.items {
@@ -196,6 +266,9 @@ func (b *recBatch) Write() error {
 }
 
 func (b *recBatch) Reset() {
+	if b.inner != nil {
+		b.inner.Reset()
+	}
 	b.items = nil
 	b.size = 0
 }
